@@ -3,6 +3,7 @@ import Rbp.Model.Run
 import Rbp.Proofs.Faults
 import Rbp.Proofs.RunSpec
 import Rbp.Proofs.Prefix
+import Rbp.Proofs.Vectors
 /-!
 # C09 — `--verify` accepts exactly the chains whose merkle roots and prev-hash links hold
 -/
@@ -145,5 +146,13 @@ theorem genesis_table_published :
        ("unobtanium", "000004c2fc5fffb810dccc197d603690099a68305232e552d96ccbe8e2c52b75"),
        ("noteblockchain", "270f3e7b185c412d57ba913d10658df54f15201a67d736cb4071a4ec4eb54836")] := by
   decide
+
+
+/-- a published vector (a test, not the unbounded claim): the model's double SHA-256 of the real Bitcoin genesis header is the hash
+    the coin table publishes, evaluated by the kernel -/
+theorem genesis_header_hashes_to_published_hash :
+    Sha.hex (A.sha256d (Vec.bytes "0100000000000000000000000000000000000000000000000000000000000000000000003ba3edfd7a7b12b27ac72c3e67768f617fc81bc3888a51323a9fb8aa4b1e5e4a29ab5f49ffff001d1dac2b7c")).reverse =
+      "000000000019d6689c085ae165831e934ff763ae46a2a6c172b3f1b60a8ce26f" :=
+  Vec.bitcoin_genesis.1
 
 end Rbp.Props.C09
